@@ -26,6 +26,8 @@ JUNK = ["str", 7, None, 3.5, ("t",), "@unhashable"]
 
 def gen_link_spec(rng: random.Random, i: int, name, max_seg=4, empty_vsl=True) -> dict:
     N = rng.choice([1, 1, 2, 2, 3, max_seg])
+    if rng.random() < 0.01:
+        N = rng.randint(64, 80)  # swarm: a very long link now and then
     spec = {
         "cls": "Link",
         "N": N,
@@ -90,7 +92,7 @@ def gen_universe_spec(
     if name_mode == "mixed":
         nm = {k: rng.choice(["unique", "unique", "dup", "auto", "weird"]) for k in "nlod"}
     return {
-        "user_subclasses": rng.random() < 0.15,
+        "user_subclasses": rng.choice([True, "falsy"]) if rng.random() < 0.15 else False,
         "nodes": [{"name": x} for x in gen_names(rng, "N", nn, nm["n"])],
         "links": [
             gen_link_spec(rng, i, x) for i, x in enumerate(gen_names(rng, "L", nl, nm["l"]))
@@ -113,9 +115,14 @@ class Universe:
                 pass
 
             ns = _NS()
+            falsy = spec.get("user_subclasses") == "falsy"
             for cname in ("Node", "Link", "LinkWithVsl", "Origin", "MainstreamOrigin", "MeteredOnRamp",
                           "SimplifiedMeteredOnRamp", "Destination", "CongestedDestination"):
-                setattr(ns, cname, type("User" + cname, (getattr(M, cname),), {}))
+                body = {}
+                if falsy and cname != "Node":
+                    # e.g. an element that records samples and reports how many it holds: len() == 0
+                    body = {"__len__": lambda self: 0}
+                setattr(ns, cname, type("User" + cname, (getattr(M, cname),), body))
             M_ = ns
         else:
             M_ = M
